@@ -42,6 +42,15 @@ def check(run):
     R.rule('C06.fail', 'inflate errors are turned into CriticalProtocolError', 1)
     R.rule('C06.activate', 'the negotiated Deflate object is stored in the state and handed to the stream (same '
                            'object), only writer of State.compression besides None', 3)
+    R.rule('C06.parse', 'extension parameters: keys and values stripped of surrounding white space (and quotes) so that '
+                        'every spelling of a parameter reaches the option name looked up', 3)
+    R.rule('C06.route', 'how a frame payload is read (validated as text or raw) depends only on per-message state that '
+                        'control frames cannot change; compressed payloads are never UTF-8 validated before inflation', 6)
+    parse_ext(R)
+    from . import C05
+    with R.as_rule('C06.route'):
+        C05.route(R)
+        C05.track(R)
     wiring(R)
     raw(R)
     rng(R)
@@ -50,6 +59,41 @@ def check(run):
     rsv1_in(R)
     fail(R)
     activate(R)
+
+
+def parse_ext(R):
+    q = 'extension.parse_extension'
+    f = R.func(q)
+    g = R.cfg(q)
+    rd = ReachingDefs(g)
+    # find where option entries are created: subscript stores options[K] = V, or a dict comprehension {K: V ...}
+    entries = []
+    for n in own_nodes(f.node):
+        if isinstance(n, ast.Assign) and isinstance(n.targets[0], ast.Subscript):
+            entries.append((n.targets[0].slice, n.value, n))
+        elif isinstance(n, ast.DictComp):
+            entries.append((n.key, n.value, n))
+    need(entries, 'parse_extension: option entries not found')
+
+    def stripped(e, node):
+        # the expression (or the single definition of the name it reads) ends in .strip(...)
+        seen = 0
+        while isinstance(e, ast.Name) and seen < 3:
+            cands = [s_ for s_ in own_nodes(f.node) if isinstance(s_, ast.Assign) and any(
+                isinstance(t, ast.Name) and t.id == e.id for t in s_.targets)]
+            if len(cands) != 1:
+                return False
+            e = cands[0].value
+            seen += 1
+        return isinstance(e, ast.Call) and isinstance(e.func, ast.Attribute) and e.func.attr == 'strip'
+    for (k, v, n) in entries:
+        R.ob('C06.parse', 'option names are stripped', stripped(k, n),
+             'option key `%s` is stored without .strip(): `name = value` (white space before "=") lands under a key with '
+             'trailing space and the negotiated parameter is silently ignored' % U(k), func=f, node=n)
+        R.ob('C06.parse', 'option values are stripped', stripped(v, n), 'option value `%s` not stripped' % U(v), func=f, node=n)
+    rets = [s_ for s_ in own_nodes(f.node) if isinstance(s_, ast.Return)]
+    R.ob('C06.parse', 'returns (token, options)', len(rets) == 1 and isinstance(rets[0].value, ast.Tuple) and len(rets[0].value.elts) == 2,
+         'parse_extension returns %s' % [U(r.value) for r in rets], func=f, node=None, construct='parse_extension return')
 
 
 def _field_of_param(R, param):
@@ -268,6 +312,11 @@ def tail(R):
             v_ = fold(R, c.args[0], g.ctx)
             if isinstance(v_, bytes):
                 litval[id(c)] = v_
+    capped = [(n, c) for (n, c) in dec if len(c.args) > 1 or c.keywords]
+    R.ob('C06.tail', 'inflate output is not capped', not capped,
+         'zlib decompress(data, max_length) called with an output limit and the unconsumed tail is not re-fed: a message '
+         'that inflates beyond the limit is silently truncated (%s)' % [U(c) for (_, c) in capped], func=f,
+         node=(capped[0][1] if capped else None), construct='inflate output cap')
     lit = [(n, c) for (n, c) in dec if id(c) in litval]
     per = [(n, c) for (n, c) in dec if (n, c) not in lit]
     ok = len(lit) == 1 and litval[id(lit[0][1])] == b'\x00\x00\xff\xff'
